@@ -16,7 +16,7 @@ CHECKS = [
   "text": "Decides: everything added to Tensor._ops is a weakref and _view_children is always a WeakRefIterable; no op holds its own output strongly; state handed to the internal UnView/ApplyMask ops captures placeholders only; finalizer arguments are weak containers; "
           "clear_graph empties both sets on every call, drops the creator before recursing over all of its variables; backward reaches clear_graph on every normal exit; gradients are nulled at the "
           "three documented sites." + NOT_DECIDED + "actual CPython refcount behaviour; bit-identity of repeated steps.", "note": NOTE},
- {"property_id": "C08", "technique": "static: CFG path analysis with exceptional edges (lock->release on all paths), who-may-write, typestate of the lock counter",
+ {"property_id": "C08", "technique": "static: CFG path analysis with exceptional edges (lock->release on all paths), who-may-write over owner closures, scenario evaluation of the lock counter typestate",
   "text": "Structural necessary conditions, exhaustive over the paths of Tensor._op under every TRACK_GRAPH x MEM_GUARD specialisation and over all lock sites: "
           "every lock taken is released or handed to the op's finalizer on all normal and exceptional exits; every locked array is registered; bases are yielded "
           "before views; the counter is only incremented by the lock function and the flag restored only by the last holder; the waiting-view set is wiped only when the tracker is empty; only an op's own output is force-locked; the release routine is called directly only on the acquiring function's error path and never twice on a path." + NOT_DECIDED + "interleavings of "
@@ -67,7 +67,7 @@ CHECKS = [
           "out-of-place ones, target self and return self; public tensors change only through mirror_tensor (identity-preserving shallow copy), views are replayed on their updated parents, parents first; "
           "the base handed to a view is None or the memory owner, a parent whose graph was cleared counts as owner, the three sharing configurations are recognised, views are registered and record replay arguments; the shape setter replays a view on the un-reshape exactly when its parent is the re-shaped tensor." + NOT_DECIDED +
           "values, shares_memory equivalence and .base correctness across arbitrary histories (run-time graph surgery).", "note": NOTE},
- {"property_id": "C05", "technique": "static: def-use chain of the in-place kernel's out= target to a private copy, must-call / dominance of placeholder creation and re-routing, condition-exactness of the glue ops",
+ {"property_id": "C05", "technique": "static: def-use chain of the in-place kernel's out= target to a private copy, must-call / dominance of placeholder creation and re-routing, condition-exactness of the glue ops, routing-by-selection lint on the glue ops, operand-reference discipline of backward code",
   "text": "Narrow claim. Decides: with tracking on the in-place kernel writes into (a placeholder view replay of) graph.base.tensor.copy() made after the graph was duplicated and preserving its memory layout, its operands are placeholders; "
           "placeholders mirror the originals and take over exactly their consumers, for the base and every view child; duplication dominates the kernel which dominates every mirror, failures restore the "
           "graph; ApplyMask/UnView are created under exactly their conditions with the placeholder operands; where-masks are applied by broadcasting arithmetic, never as an index." + NOT_DECIDED + "the gradient values themselves (overwritten-region zeroing, "
@@ -78,7 +78,7 @@ CHECKS = [
           "of Operation.backward provably yields an engine-owned array for the worst case it must handle; no backward_var returns an input's array itself; cached state is returned only by single-variable "
           "ops; the seed store fails (known finding D8)." + NOT_DECIDED + "np.shares_memory of concrete arrays; value checksums.", "note": NOTE},
  {"property_id": "C02", "technique": "static: symbolic term evaluation (sympy) of closed-form forward/backward bodies and comparison with the derivative of the declared kernel; linearity-in-grad abstract domain; "
-                                       "index-specialised CFG exhaustiveness; definite-assignment of backward state",
+                                       "index-specialised CFG exhaustiveness; definite-assignment of backward state; extended-sign (0/+/-/inf/nan) abstract interpretation of the log-domain family; all on the helper-inlined normal form",
   "text": "Decides, for the 66 op/operand pairs whose forward and backward bodies are closed-form (all arithmetic, exp/log, trigonometric, hyperbolic ufuncs, maximum/minimum, arctan2, where, and the elementwise "
           "activations): the term of backward_var|index=k equals g * d(forward term)/dx_k at exact sample points of the kernel's domain (49 additionally proved by simplification), and the documented conventions at "
           "non-differentiable points (|x| at 0, arcsin/arccos at +-1, max/min ties) hold; for every backward_var: the result is homogeneous-linear in grad (abstract domain), a value is returned for every index < arity, "
@@ -94,19 +94,22 @@ NOT_APPLICABLE = [
 # Clauses added with the second round of seeded changes and the defects D11-D17 (inserted before the "Not decided" part)
 ADDENDA = {
  "C01": "Also: hand-written accumulation helpers (gru._backprop) accumulate and never overwrite; ops overriding backward() reach the generic loop on every path or serve every variable.",
- "C02": "Also (R02.7): for the log-domain family (logaddexp, logaddexp2, softmax, logsoftmax, sigmoid, softmax-crossentropy, _softmax, logsumexp, gru.sig) an extended-sign abstract interpretation (classes 0/+/-/+inf/-inf/nan plus the tags MAX, GEMAX, NONPOS0, UNIT1, GE1 of the max-shift idiom) shows that finite operands and gradients cannot reach inf/inf, 0/0, 0*inf or inf-inf: a backward rewritten as exp(a)/(exp(a)+exp(b)) or exp(x)/sum(exp(x)) is reported with the sub-expression that first produces nan. Idealisation: only exponentials over/underflow.",
- "C03": "Also: Tensor.__array_ufunc__ evaluates forwarded ufuncs through getattr(ufunc, method) (outer/reduce/accumulate honoured); a parameter that a function inspects with isinstance is still read when it is of none of the tested types (CFG specialised with every such test false): no legal argument is silently ignored; a where= mask given as a Tensor is unwrapped (D19, repaired).",
- "C04": "Also: a wholesale rebuild of a _view_children list maps the same tensor's own children (D15, repaired).",
- "C05": "Also: building the placeholder graph leaves the originals untouched; dtype-kind tests (integer-array index detection of SetItem/GetItem) name abstract scalar classes, never one width (D16, repaired); index classifiers decide from the converted element only, never from its Python type; the routing ops (SetItem, UnView, ApplyMask) and the ufunc where-mask in Operation.backward drop excluded entries by assignment/selection, never by scaling with a 0/1 mask -- 0 * nan = nan leaked non-finite gradients into overwritten / masked-out contents (D28, three sites repaired).",
+ "C02": "Also (R02.7): for the log-domain family (logaddexp, logaddexp2, softmax, logsoftmax, sigmoid, softmax-crossentropy, _softmax, logsumexp, gru.sig) an extended-sign abstract interpretation (classes 0/+/-/+inf/-inf/nan plus the tags MAX, GEMAX, NONPOS0, UNIT1, GE1 of the max-shift idiom) shows that finite operands and gradients cannot reach inf/inf, 0/0, 0*inf or inf-inf: a backward rewritten as exp(a)/(exp(a)+exp(b)) or exp(x)/sum(exp(x)) is reported with the sub-expression that first produces nan. Idealisation: only exponentials over/underflow. Round 3: flatten/reshape calls in op modules use C element order (R02.8); no store through a reshape/ravel/flatten temporary unless its receiver is provably a fresh C-ordered array (R02.9, with an anchor-free positive control); a parameter whose conversion is recorded for backward reaches the forward kernel through that recorded value (R02.10; D32 Where, repaired).",
+ "C03": "Also: Tensor.__array_ufunc__ evaluates forwarded ufuncs through getattr(ufunc, method) (outer/reduce/accumulate honoured); a parameter that a function inspects with isinstance is still read when it is of none of the tested types (CFG specialised with every such test false): no legal argument is silently ignored; a where= mask given as a Tensor is unwrapped (D19, repaired). Round 3: `out` is consulted on every path of every public function that accepts and uses it (R03.9; D30 clip, repaired).",
+ "C04": "Also: a wholesale rebuild of a _view_children list maps the same tensor's own children (D15, repaired). Round 3: a member swap in a _view_children list addresses the swapped tensor's direct parent (the operand of its creator), not its base; ops that can return views hand their operands' arrays to the NumPy kernel unconverted (R04.7).",
+ "C05": "Also: building the placeholder graph leaves the originals untouched; dtype-kind tests (integer-array index detection of SetItem/GetItem) name abstract scalar classes, never one width (D16, repaired); index classifiers decide from the converted element only, never from its Python type; the routing ops (SetItem, UnView, ApplyMask) and the ufunc where-mask in Operation.backward drop excluded entries by assignment/selection, never by scaling with a 0/1 mask -- 0 * nan = nan leaked non-finite gradients into overwritten / masked-out contents (D28, three sites repaired). Round 3: ops never freeze id(<operand>) in their forward pass (R05.11); backward code dereferences operand tensors through self.variables only -- references kept on the side are not re-routed by in-place updates (R05.12; D31 BatchNorm and GRU, repaired).",
  "C06": "Also: any copy made of the first contribution keeps the producer's layout (np.copy / order='K'). D5 is repaired (3723d34): R06.4 now proves, path-sensitively, that the stored first contribution is either a buffer allocated *_like(var.data) and filled from the contribution, or reaches the store only over the equal-strides edge of the test against var.data.strides through layout-preserving maps.",
  "C07": "Also: before a placeholder graph is built, in every function that builds one (_in_place_op and the .shape setter), the gradient of the target and of the base that owns the memory is nulled (D13/D14, repaired); a stale base is dropped for view and non-view ops alike; the public null_grad() touches view information only for internal callers.",
  "C09": "Also: an op that overrides backward() still passes the guard (super().backward on every path, or its own test); Tensor.backward clears the graph only on its normal continuation (never in finally/except), so a failed back-propagation fails again.",
- "C10": "Also: value stores to the cached view gradient (_view_grad) carry the same obligation (D17, repaired); no function accepts `constant` without using it.",
- "C11": "Also: np.sign belongs to the refusing family; forwarded ufuncs are evaluated as getattr(ufunc, method).",
- "C14": "Also: the caller's seed enters only through asarray(...); a rejected seed does not clear the graph; array-ness dataflow: between np.asarray and the store no step (array arithmetic, ufunc call, reduction, unknown call) can turn a 0-d array back into a NumPy scalar (D12, repaired).",
+ "C10": "Also: value stores to the cached view gradient (_view_grad) carry the same obligation (D17, repaired); no function accepts `constant` without using it. Round 3: `constant` is consulted on every path of every public function that accepts and uses it (R10.8; D30 clip, repaired); no operand parameter is re-wrapped as a tensor without an explicit constant= (R10.9, positive control).",
+ "C11": "Also: np.sign belongs to the refusing family; forwarded ufuncs are evaluated as getattr(ufunc, method). Round 3: Tensor methods/properties that route to _op keep no state on self and return this call's result (R11.7); the key set of an incrementally built op_kwargs dict is computed flow-sensitively at each call site (R11.6).",
+ "C14": "Also: the caller's seed enters only through asarray(...); a rejected seed does not clear the graph; array-ness dataflow: between np.asarray and the store no step (array arithmetic, ufunc call, reduction, unknown call) can turn a 0-d array back into a NumPy scalar (D12, repaired). Round 3: a possibly-None gradient read is converted (np.array / np.copy / astype) only under a not-None test of that read (R14.6).",
  "C15": "Also: the untracked in-place path forwards op, operands, op_args, op_kwargs and constant; module initialisation leaves both switches literal booleans on every path.",
- "C16": "Also: in nnet code a parameter inspected with isinstance is still read when it is of none of the tested types (an ndarray seed state where a Tensor is tested); strides are derived from shape x itemsize only, never from arr.strides (D11, repaired); window_shape/step/dilation entries are tested strictly positive before use; running max/min accumulators in nnet code start from the identity; no forward pass narrows an operand to a sibling operand's dtype.",
- "C17": "Also: creation routines hand their parameters to NumPy as the caller gave them (no rebinding other than unwrapping a Tensor).",
+ "C16": "Also: in nnet code a parameter inspected with isinstance is still read when it is of none of the tested types (an ndarray seed state where a Tensor is tested); strides are derived from shape x itemsize only, never from arr.strides (D11, repaired); window_shape/step/dilation entries are tested strictly positive before use; running max/min accumulators in nnet code start from the identity; no forward pass narrows an operand to a sibling operand's dtype. Round 3: the placement check dominates every value the forward pass of ConvND / MaxPoolND returns, not only the window creation (R16.2).",
+ "C17": "Also: creation routines hand their parameters to NumPy as the caller gave them (no rebinding other than unwrapping a Tensor). Round 3: Tensor.__array__ forwards dtype and copy to NumPy unchanged (the copy NumPy requests on behalf of Tensor(x)/tensor(x) cannot be skipped).",
+ "C08": "Also: Round 3: the per-array release is private to the lock module (R08.9); the input locks cover every operand, unfiltered (R08.2); NumPy conversions of caller-supplied raw values are may-raise inside the locked region (R08.1); the last-holder unlock is decided by evaluating the release routine for a lock count of 0, 1 and 2 (R08.5); who-may-write clauses accept private helpers that serve only their owner (owner closure).",
+ "C12": "Also: Round 3: every value store to a tensor's gradient slot anywhere in the repository is None or freshly allocated (D29, repaired); the generic backward loop's writes are judged against the worst-case backward_var result (the incoming grad itself).",
+ "C13": "Also: Round 3: every iteration of the rollback loop re-routes its node (no guard / continue ahead of reroute_ops_through).",
 }
 for _c in CHECKS:
     _a = ADDENDA.get(_c["property_id"])
